@@ -252,12 +252,20 @@ type c02Run1 struct {
 	vals   []string
 }
 
+// the daemon keeps one Compiler for all its programs and all their reloads: so does this run, one
+// per mode, so that what an earlier compile left behind in it is part of what is tested
+var c02Compilers = map[bool]*compiler.Compiler{}
+
 func c02Exec(name, prog string, optimise bool, lines []string) c02Run1 {
-	var opts []compiler.Option
-	if !optimise {
-		opts = append(opts, compiler.DisableOptimisation())
+	c := c02Compilers[optimise]
+	if c == nil {
+		var opts []compiler.Option
+		if !optimise {
+			opts = append(opts, compiler.DisableOptimisation())
+		}
+		c, _ = compiler.New(opts...)
+		c02Compilers[optimise] = c
 	}
-	c, _ := compiler.New(opts...)
 	obj, err := c.Compile(name, strings.NewReader(prog))
 	if err != nil || obj == nil {
 		return c02Run1{ok: false, errMsg: fmt.Sprint(err)}
